@@ -102,6 +102,7 @@ pub struct Exec {
     pub flag_points: bool,
     pub pool_threads: usize,
     probe: RwLock<Option<Arc<dyn Fn() -> bool + Send + Sync>>>,
+    flag_addr: AtomicU64,
 }
 
 static EPOCH: AtomicU64 = AtomicU64::new(1);
@@ -252,6 +253,7 @@ impl Exec {
                 aborted: false,
             }),
             cv: Condvar::new(),
+            flag_addr: AtomicU64::new(0),
             fine_grained,
             flag_points,
             pool_threads,
@@ -259,6 +261,10 @@ impl Exec {
         });
         *CURRENT.write().unwrap() = Some(exec.clone());
         exec
+    }
+
+    pub fn set_flag_addr(&self, a: u64) {
+        self.flag_addr.store(a, Ordering::Relaxed);
     }
 
     pub fn set_probe(&self, p: Arc<dyn Fn() -> bool + Send + Sync>) {
@@ -349,6 +355,18 @@ impl Exec {
     }
 
     fn lib_point(&self, id: &'static str, data: u64) {
+        // accesses to the library's flags (cancel flag, notification flag): only those to the
+        // notification flag are scheduling points, and only in scenarios about the wake-up protocol
+        if id == "atomic:load" || id == "atomic:store" {
+            if !self.flag_points || data != self.flag_addr.load(Ordering::Relaxed) {
+                return;
+            }
+            let Some(tid) = my_tid(self) else {
+                return;
+            };
+            self.park(tid, if id == "atomic:load" { "flag:load" } else { "flag:store" }, 0, Wait::None);
+            return;
+        }
         // monitor-only points never suspend
         if id == "matchers:get" {
             return;
